@@ -8,19 +8,26 @@
  * Decoder: a static zero object = what calloc in vbi_decoder_new() leaves in every field the event code reads
  * (handlers = next_handler = NULL, event_mask = 0, unlocked mutex); vbi_decoder_new is not run.
  *
- * Three harnesses share one reference model (the shadow list) and one callback body:
+ * Four harnesses share one reference model (the shadow list) and one callback body:
  *
- *  h_api_step  INV-STEP.  From EVERY handler list satisfying the representation invariant I (<= N0 records) one
- *              API call (any of the four functions, any arguments) outside delivery: the list afterwards is
- *              exactly what the documentation says, I holds again, event_mask = OR of masks, Teletext reset
- *              exactly when the TTX_PAGE bit appears, mutex released.
- *  h_deliver   From EVERY list satisfying I (<= N0 records): NEV x vbi_send_event() with a symbolic single-bit
- *              type; every handler invocation checks the delivery contract and performs up to NACT further
- *              symbolic API calls (on itself or any other (function, user pointer) pair; at most CBK per event -
- *              this bounds the traversal, every call from a callback can append one more record).  Afterwards
- *              the list is again exactly the expected one and I holds (so any number of events / API calls
- *              between events follows by induction, as long as the list stays within the bound).
- *  h_events    SEQ cross-check without I: zero decoder, R_OPS symbolic API calls, then the events as above.
+ *  h_api_step     INV-STEP.  From EVERY handler list satisfying the representation invariant I (<= N0 records)
+ *                 one API call (any of the four functions, any arguments) outside delivery: the list afterwards
+ *                 is exactly what the documentation says, I holds again, event_mask = OR of masks, Teletext
+ *                 reset exactly when the TTX_PAGE bit appears, mutex released.
+ *  h_api_step_cb  INV-STEP inside delivery (cursor lemma): same with the event mutex held and the traversal
+ *                 cursor at an arbitrary record: afterwards the cursor is the next surviving record.
+ *  h_deliver      From EVERY list satisfying I (<= N0 records): NEV x vbi_send_event() with a symbolic single-bit
+ *                 type; every handler invocation checks the delivery contract and performs up to NACT further
+ *                 symbolic API calls (on itself or any other (function, user pointer) pair; at most CBK per
+ *                 event - this bounds the traversal, every call from a callback can append one more record).
+ *                 Afterwards the list is again exactly the expected one and I holds (so any number of events /
+ *                 API calls between events follows by induction, as long as the list stays within the bound).
+ *  h_events       SEQ cross-check without I: zero decoder, R_OPS symbolic API calls, then the events as above.
+ *
+ * Composition (argument, each part a solver verdict): at every head of the vbi_send_event loop "list == shadow,
+ * cursor == first record after the current one that is still registered" holds; the loop step keeps it
+ * (h_deliver, all list shapes), every nested API call keeps it (h_api_step_cb, every cursor position), hence
+ * nesting of any depth; h_deliver with CBK = 2, 3 checks the composition directly for bounded nesting.
  *
  *  I:  vbi->handlers is a NULL-terminated list of distinct malloc'ed records with pairwise different
  *      (handler, user_data), every event_mask != 0, vbi->event_mask = OR of the masks, next_handler = NULL,
@@ -162,6 +169,25 @@ static void sh_set(unsigned f, unsigned u, int mask, int by_fn_only)
   if (!found && mask) sh_new(f, u, mask);
 }
 
+/* Frame: decoder members the event code has no business with (the neighbours of the members vbi_event_enable may
+ * reset - network, prog_info[], aspect_source, vps_pid - and of the list head) hold sentinels before and must
+ * hold them after every API call / event.  (CBMC checks p->member[i] only against the end of the enclosing
+ * object, so an overrun from one decoder member into the next would otherwise pass.) */
+static void frame_set(void)
+{
+  V.time = 2.5; V.chswcd = 0x5A5A; V.triggers = (vbi_trigger *) &ucell;
+  V.brightness = 77; V.contrast = 88; V.cn = (cache_network *) &ucell; V.ca = (vbi_cache *) &ucell;
+  V.pageref = 99; V.wss_last[0] = 0xA5; V.wss_last[1] = 0x5A; V.wss_rep_ct = 0x1234; V.wss_time = 1.5;
+}
+static void frame_check(void)
+{
+  V_ASSERT(V.time == 2.5 && V.chswcd == 0x5A5A && V.triggers == (vbi_trigger *) &ucell, "frame_before_and_after_network");
+  V_ASSERT(!c11_mutex_held(&V.chswcd_mutex) && !c11_mutex_held(&V.prog_info_mutex), "frame_other_mutexes");
+  V_ASSERT(V.brightness == 77 && V.contrast == 88, "frame_after_prog_info");
+  V_ASSERT(V.cn == (cache_network *) &ucell && V.ca == (vbi_cache *) &ucell && V.pageref == 99, "frame_before_event_list");
+  V_ASSERT(V.wss_last[0] == 0xA5 && V.wss_last[1] == 0x5A && V.wss_rep_ct == 0x1234 && V.wss_time == 1.5, "frame_between_list_and_vps_pid");
+}
+
 /* the real list is exactly the live shadow instances, in registration order (=> invariant I again);
  * idle: not inside vbi_send_event (cursor cleared, mutex free).  Remembers the record of instance `watch`. */
 static struct event_handler *watched;
@@ -180,6 +206,7 @@ static void list_matches_shadow(int idle, unsigned watch)
     }
   V_ASSERT(p == NULL, "list_has_nothing_else");
   V_ASSERT(V.event_mask == sh_or(), "event_mask_is_or_of_live_masks");
+  frame_check();
   if (idle) {
     V_ASSERT(V.next_handler == NULL, "traversal_cursor_cleared");
     V_ASSERT(!c11_mutex_held(&V.event_mutex), "event_mutex_released");
@@ -214,6 +241,7 @@ static void build_list(void)
       free(nd[i]);
   }
   sh_n = n; V.event_mask = m;
+  frame_set();
 }
 
 /* ---- one API call + the checks that hold after every API call -------------- */
@@ -383,6 +411,7 @@ V_HARNESS(h_events)
   V_INIT();
   for (i = 0; i < R_OPS; i++) read_op(&pro[i], OP_KINDS);
   read_events(type);
+  frame_set();
   list_matches_shadow(1, MAXI);                          /* INIT |= I */
   for (i = 0; i < R_OPS; i++) do_op(&pro[i], 1, 0);
   list_matches_shadow(1, MAXI);
